@@ -6,7 +6,7 @@ ALL = ["C%02d" % i for i in range(1, 21)]
 
 PBT = "property-based testing (proptest): "
 CHECKS = {
-    "C01": dict(engine="core(sched+api)", technique=PBT + "generated multi-threaded programs + generated schedules at hook-site granularity (stateful model-based, baton scheduler); oracle: exactly-once multiset equality with the reference model and delivery deadlines per cycle/flush; plus a constructed overlap of two real flush() calls (reporter parks the first one) and, in the thorough tier, a coverage-guided libFuzzer campaign over (program, schedule) bytes with the same oracles",
+    "C01": dict(engine="core(sched+api)", technique=PBT + "generated multi-threaded programs + generated schedules at hook-site granularity (stateful model-based, baton scheduler); oracle: exactly-once multiset equality with the reference model and delivery deadlines per cycle/flush; plus ring-fill episodes in the default configuration (a record may be missing only if its own submit was pushed inside an overload window), pools of 33-40 registered threads, queue registration at the first command with a true-waiter model of the registry lock, a constructed overlap of two real flush() calls (reporter parks the first one), a free-running no-flush sub-check against the real background collector and, in the thorough tier, a coverage-guided libFuzzer campaign over (program, schedule) bytes with the same oracles",
                 text="Exploration: 30k hooked-scheduler cases + 18k public-API cases per quick run (x20 in the thorough tier), each compared with a reference model (exactly once, nothing invented, delivered by the first complete cycle / by flush()). Schedules are sampled at push/drain/empty-pop granularity, so cross-thread drain races and thread-exit races are reached deterministically; absence is not established.",
                 note="Trusts the baton scheduler (one vthread at a time), the hook sites as the only relevant interleaving points (rtrb treated as a linearizable queue), and the harness's sink reporter. The free-running background thread's latency ('about one interval') is not decided here."),
     "C02": dict(engine="core(api)", technique=PBT + "generated span-tree programs; oracle: delivered (trace id, parent id) multiset per span name equals the reference model's tree, ids non-zero and distinct",
@@ -27,10 +27,10 @@ CHECKS = {
     "C07": dict(engine="core(api+sched)", technique=PBT + "generated API call sequences in every listed state (no reporter, no-op/unsampled/empty parents, re-entrant closures, full queue, exceeded limits, thread-local teardown); oracle: every call returns (catch_unwind per call; process abort = violation; an operation that needed another vthread deadlocks the scheduler)",
                 text="Exploration: ~19k in-process sequences (incl. re-entrant mini programs inside property/event closures), 4.8k sequences without a reporter, 4.8k scheduled sequences with ring-fill episodes, limit bursts and 1200 thread-local-teardown cases on fresh OS threads per quick run.",
                 note="Debug assertions are ON in the harness profile (as in the repository's own dev-profile suite). Blocking is detected only as scheduler deadlock / watchdog expiry."),
-    "C08": dict(engine="core(sched)", technique=PBT + "generated trace/thread histories + schedules; oracle: collector_stats() zero at quiescence and bounded by in-flight traces/live threads at every idle point",
+    "C08": dict(engine="core(sched)", technique=PBT + "generated trace/thread histories + schedules; oracle: collector_stats() zero at quiescence and bounded by in-flight traces/live threads at every idle point; plus constructed overlapping real flush() calls (traces alive across the parked cycle) with the counters read afterwards",
                 text="Exploration: 72k scheduled histories per quick run in both configurations, stats sampled after every cycle.",
                 note="Only the four counters exposed by the verification hook are observed."),
-    "C09": dict(engine="core(sched+api)", level="fault_enumeration", technique=PBT + "fault injection: generated ring-fill episodes and scope-limit bursts inside generated programs and schedules; oracle: missing subset of permitted (submits logged as dropped with free==0), delivered records correct, per-ring order of commit/drop commands issued == received, recovery complete",
+    "C09": dict(engine="core(sched+api)", level="fault_enumeration", technique=PBT + "fault injection: generated ring-fill episodes and scope-limit bursts (scopes with open local spans filled to the limit, local operations continuing while full) inside generated programs and schedules; oracle: missing subset of permitted (submits logged as dropped with free==0), delivered records correct, per-ring order of commit/drop commands issued == received, recovery complete",
                 text="Fault enumeration by generation: ~18k scheduled cases with ring-fill episodes (0-3 slots left) plus ~900 scope/nesting-limit bursts per quick run; every full-queue push and its outcome is observed through the hooks and the oracle admits only those omissions.",
                 note="Ring capacity, scope capacity and nesting limit are the compiled-in constants. Hook log (command issued / pushed / received per ring) is trusted."),
     "C10": dict(engine="core(api)", technique=PBT + "generated well-nested scope sequences with context probes; oracle: metamorphic frame condition (observation after close == before open, same context version => same observation) and inertness without scope",
@@ -42,7 +42,7 @@ CHECKS = {
     "C12": dict(engine="codec(+libFuzzer)", technique=PBT + "generated contexts (boundary classes) and near-valid traceparent strings (22 mutation kinds) + coverage-guided libFuzzer target with the same oracle; oracle: round trip, fixed output form, differential against an independent reference parser, no panic",
                 text="Exploration: 3.2M generated cases per quick run; thorough adds 22M cases and a 3 min libFuzzer campaign (oracle inside the target).",
                 note="The reference parser implements only the property's sentence; inputs that are valid hex but not canonical are only required to decode to the denoted values when accepted."),
-    "C13": dict(engine="core(api+sched)", technique=PBT + "scripted inner futures whose per-poll actions are generated, wrapped by in_span/enter_on_poll and driven by generated poll/drop operations from generated vthreads; oracle: local parent inside each poll, frame condition after it, span delivered exactly at completion/drop (cycle deadline + monotonic bracket), final poll's recordings in the delivered trace, one enter_on_poll span per poll",
+    "C13": dict(engine="core(api+sched)", technique=PBT + "scripted inner futures whose per-poll actions are generated, wrapped by in_span/enter_on_poll and driven by generated poll/drop operations from generated vthreads; oracle: local parent inside each poll, frame condition after it, span delivered exactly at completion/drop (cycle deadline + monotonic bracket), final poll's recordings in the delivered trace, one enter_on_poll span per poll; plus a free-running sub-check (real background collector, in_span futures created on one thread and completed on a fresh thread as its first tracing activity, nobody calls flush())",
                 text="Exploration: 27k API cases (real flush() cycles) and 17k scheduled cases (collector steps inside the completing poll) per quick run, both configurations.",
                 note="The inner future is the harness's scripted object; executors, wakers and real I/O are out of scope. Same trusted base as C01 for the scheduled part."),
     "C14": dict(engine="core(api+sched)", technique=PBT + "scripted inner streams/sinks wrapped by fastrace_futures::in_span with generated call sequences over the five entry points; oracle as C13 per entry point",
